@@ -98,6 +98,9 @@ def alphabet(client):
     # a header block padded out with 600 empty CONTINUATION frames, in one chunk
     rx("rx-block-with-600-empty-continuations", wire.headers(1, sb(H.REQ if not client else H.RESP), eh=False),
        *([wire.continuation(1, b"", eh=False)] * 600 + [wire.continuation(1, b"", eh=True)]))
+    # header blocks the HPACK decoder gives up on: an integer that runs off the end of the block, an index beyond the table
+    rx("rx-headers-truncated-hpack-integer", wire.headers(1, b"\xff\xff"))
+    rx("rx-headers-bad-hpack-index", wire.headers(1, b"\xfe"))
     rx("rx-ack", wire.settings([], ack=True))
     rx("rx-data1", wire.data(1, b"abc", pad=2))
     rx("rx-rst1", wire.rst_stream(1, 2))
